@@ -223,7 +223,7 @@ func init() {
 	props["C05"].Outside = append(props["C05"].Outside, "WebSocket close frame (the block is inline behind ws.UpgradeHTTP, which needs a hijackable connection; by reading the close reason is never truncated to 123 bytes - D16)", "status details (proto.Marshal of the details is not encoded)", "json.Marshal of the Twirp error is modelled for messages that need no escaping")
 	ext("C14", "drivers: header and trailer metadata (symbolic 1..2 byte values) set by the handler through grpc.SetHeader / SetTrailer, forged grpc-status / grpc-message trailers, as seen by the client through the ResponseWriter model on gRPC and in the gRPC-web trailer frame / trailers-only headers",
 		HarnessSpec{Name: "VerifH_serveGRPC", Covers: []string{"ok", "failed"}},
-		HarnessSpec{Name: "VerifH_grpcweb", Covers: []string{"ok", "trailers-only"}})
+		HarnessSpec{Name: "VerifH_grpcweb", Covers: []string{"ok", "trailers-only", "same-key-header-and-trailer"}})
 	ext("C15", "driver: grpc-timeout header through serveGRPC: one digit x every unit (deadline seen by the handler) and every ASCII string of 1..3 bytes that decodeTimeout rejects (400, handler never invoked)",
 		HarnessSpec{Name: "VerifH_serveGRPC_timeout", Covers: []string{"malformed", "deadline", "zero-timeout", "sub-second"}})
 	props["C15"].Assume = append(props["C15"].Assume, "frozen clock: time.Now() is the zero Time, time.Until(t) = t - now; no timers run", "context.WithTimeout / WithCancel interpreted from source")
@@ -233,7 +233,7 @@ func init() {
 		ID: "C18",
 		Harnesses: []HarnessSpec{
 			{Name: "VerifH_serveGRPC", Covers: []string{"interceptor", "stats", "ok", "failed"}},
-			{Name: "VerifH_serveHTTP_status", Covers: []string{"interceptor", "stats", "ok", "twirp", "status-body"}},
+			{Name: "VerifH_serveHTTP_status", Covers: []string{"interceptor", "stats", "ok", "twirp", "status-body", "header-then-error"}},
 			{Name: "VerifH_grpc_recv", Covers: []string{"stats-inpayload"}},
 			{Name: "VerifH_grpc_send", Covers: []string{"stats-outpayload"}},
 		},
@@ -296,7 +296,7 @@ func init() {
 	addProp(&PropSpec{
 		ID: "C13",
 		Harnesses: []HarnessSpec{
-			{Name: "VerifH_pool_alias", Covers: []string{"two-requests"}},
+			{Name: "VerifH_pool_alias", Covers: []string{"two-requests", "small-pooled-buffer"}},
 		},
 		Bounds: map[string]string{
 			"quick":    "two HttpBody requests (receive + reply) processed back to back over larking's byte pool with independent symbolic bodies of 1..4 bytes; the pool hands the second request the buffer recycled by the first",
@@ -314,4 +314,11 @@ func init() {
 		HarnessSpec{Name: "VerifH_serveGRPC_stream", Covers: []string{"clean-eof", "truncated", "replies"}})
 	ext("C18", "stream interceptor and per-message stats on a bidirectional gRPC stream (k<=2 in, j<=2 out)",
 		HarnessSpec{Name: "VerifH_serveGRPC_stream", Covers: []string{"interceptor", "stats"}})
+
+	ext("C07", "int32 path variable /n/{i} (digit 0..9, incl. the field's default 0) against a competing value 1..9 through the query or the decoded body",
+		HarnessSpec{Name: "VerifH_serveHTTP_intparam", Covers: []string{"zero-capture", "query-rival", "body-rival"}})
+	ext("C03", "int32 path variable through ServeHTTP",
+		HarnessSpec{Name: "VerifH_serveHTTP_intparam", Covers: []string{"zero-capture"}})
+	ext("C11", "register / drop / register-again of a connection under an adversarial map iteration order (one range statement over a map, chosen by fork, reversed); every route incl. additional bindings of the re-registered methods must dispatch; after every step of every history the path parameters of each live route are applied to a request message built from EACH live backend's own descriptors",
+		HarnessSpec{Name: "VerifH_registry_maporder", Covers: []string{"reregistered"}})
 }
